@@ -75,7 +75,7 @@ def _apply(prog, v):
     return Program(prog.root, overrides={v.path: ast.unparse(tree)}, base=prog)
 
 
-def all_variants(prop, mod):
+def all_variants(prop, mod, with_private=False):
     """hand-written witnesses/twins of the rule module + one automatic alpha-renaming twin per anchored file"""
     import json
     from . import VERIF
@@ -99,7 +99,7 @@ def all_variants(prop, mod):
     from .seedcorpus import benign_all
     for sd in benign_all():
         seeds.append(Variant("benign", "behaviour-preserving change %s: %s" % (sd["name"], sd["summary"]), "", None, None, None, sd))
-    return out + auto_rename_twins(files) + seeds
+    return out + auto_rename_twins(files, with_private) + seeds
 
 
 def _run_one(args):
@@ -318,13 +318,16 @@ def _rename_locals(tree):
     return changed > 0
 
 
-def auto_rename_twins(paths):
+def auto_rename_twins(paths, with_private=False):
+    """automatic twins of the anchored files.  The program-wide renaming of private members is not part of the self-validation
+    (`with_private`): the properties name private methods as their anchors, a rule that loses such an anchor is undecided by
+    design; tools/run_auto_twins.py runs it for information."""
     from .autotwins import TRANSFORMS, rename_private_everywhere
     out = [twin("auto: all locals of %s renamed" % os.path.basename(p), p, _rename_locals) for p in paths]
     for what, fn in TRANSFORMS:
         for p in paths:
             out.append(twin("auto: %s in %s" % (what, os.path.basename(p)), p, fn))
-    for p in paths:
+    for p in (paths if with_private else []):
         v = twin("auto: private members of %s renamed everywhere" % os.path.basename(p), p, None)
         v.multi = (lambda prog, p=p: rename_private_everywhere(prog, p))
         out.append(v)
